@@ -193,12 +193,25 @@ def rule_r3(p, res):
         r.check(fresh, f, m["key_stmt"], "memo key `self.%s = %s` keeps a reference to the caller's array: editing that array in place "
                 "afterwards makes the stale cached result look current" % (m["key"], norm(v)[:40]),
                 {"function": f.short, "key_store": norm(m["key_stmt"])[:70]})
+        # the key is installed only once the value exists: if the (raising) computation came after the key store, a failed
+        # call would leave its key behind and the next call with the same argument would be answered with the previous value
+        if isinstance(m["val_stmt"].value if isinstance(m["val_stmt"], ast.Assign) else None, ast.Call):
+            r.check(m["cfg"].dominates(m["val_stmt"], m["key_stmt"]), f, m["key_stmt"], "the memo key `self.%s` is stored before the value `self.%s` has been computed: when the computation "
+                    "raises (points outside the domain), the key of the failed call stays behind and a repeated call with the same points is answered from the stale cache instead of raising again"
+                    % (m["key"], m["value"]), {"function": f.short, "value_before_key": True})
         # the cached value must only be rebound, never mutated in place
         eff = get_effects(p)
         s = eff.summary(f, c)
         mut = [e for e in s.on(f.params[0]) if e.kind == "mutate" and e.path[:1] == (m["value"],)]
         r.check(not mut, f, mut[0].node if mut else f.node, "cached value is mutated in place")
     r.floor(1, "memo sites")
+
+
+def _ancestors_until(node, stop):
+    n = getattr(node, "_parent", None)
+    while n is not None and n is not stop:
+        yield n
+        n = getattr(n, "_parent", None)
 
 
 def _batch_loops(f):
@@ -255,6 +268,21 @@ def rule_r4(p, res):
         for c in apps:
             out_lists.setdefault(c.func.value.id, []).append(c)
         applied = [nm for nm, cs in out_lists.items() if any("call:self._apply" in leaves(c.args[0], defs) for c in cs if c.args)]
+        if not applied:
+            # the other idiom: a buffer allocated up front, filled slice by slice.  Allocated from the *input* it imposes the
+            # input's dtype and width on the result, which the unbatched path does not do
+            stores = [n for n in walk_own(lp) if isinstance(n, ast.Assign) and isinstance(n.targets[0], ast.Subscript) and isinstance(n.targets[0].value, ast.Name)
+                      and "call:self._apply" in leaves(n.value, defs)]
+            for st in stores:
+                buf = defs.single(st.targets[0].value.id)
+                if isinstance(buf, ast.Call) and ("param:" + xparam) in leaves(buf, defs) and (dotted(buf.func) or "").split(".")[-1] in ("empty_like", "zeros_like", "ones_like", "full_like", "empty", "zeros", "ones", "full"):
+                    r.violation(f, st, "the per-batch results are written into `%s`, a buffer that takes its dtype and shape from the input points: a result of another dtype "
+                                "(integer-stored coordinates mapped to fractions) is silently cast and a result of another dimensionality does not fit, so the batched "
+                                "result differs from the unbatched one" % norm(buf)[:50])
+                    break
+            else:
+                need(False, "C09.R4: cannot find the list collecting the per-batch results in %s" % f.short)
+            continue
         need(len(applied) == 1, "C09.R4: cannot find the list collecting the per-batch results in %s" % f.short)
         res_list = applied[0]
         stacked = [c for c in calls_in(f.node) if (dotted(c.func) or "") in ("np.vstack", "np.concatenate", "numpy.vstack", "numpy.concatenate")
@@ -282,6 +310,29 @@ def rule_r4(p, res):
                             {"function": f.short, "accumulated": nm, "length": norm(ln)})
                 else:
                     r.ok({"function": f.short, "accumulated": nm, "value": norm(arg)[:50]})
+        # a flag that is raised inside the loop and consulted after it must not be lowered again by a later batch
+        after = set()
+        seen_loop = False
+        for st in walk_own(f.node):
+            if st is lp:
+                seen_loop = True
+            elif seen_loop and not any(st is x for x in ast.walk(lp)) and isinstance(st, ast.stmt):
+                for x in ast.walk(st.test if isinstance(st, (ast.If, ast.While)) else st):
+                    if isinstance(x, ast.Name) and isinstance(x.ctx, ast.Load):
+                        after.add(x.id)
+        consts = {}
+        for st in walk_own(lp):
+            if isinstance(st, ast.Assign) and len(st.targets) == 1 and isinstance(st.targets[0], ast.Name) and isinstance(st.value, ast.Constant) and st.targets[0].id in after:
+                consts.setdefault(st.targets[0].id, []).append(st)
+        for nm, sts in consts.items():
+            vals = {bool(x.value.value) for x in sts}
+            if len(vals) == 2:
+                reset = [x for x in sts if not any(isinstance(a_, (ast.If, ast.ExceptHandler)) for a_ in _ancestors_until(x, lp))]
+                for x in reset:
+                    r.violation(f, x, "`%s` is consulted after the batch loop but is reset by `%s` on every iteration: only the last batch decides, so a failure "
+                                "recorded for an earlier batch is forgotten and the result depends on the batch size" % (nm, norm(x)))
+            else:
+                r.ok({"function": f.short, "flag": nm})
         # None => unbatched
         tests = [n for n in walk_own(f.node) if isinstance(n, ast.If) and norm(n.test) in ("%s is None" % bparam,)]
         r.check(bool(tests), f, f.node, "batch_size=None must mean no batching")
@@ -394,7 +445,67 @@ def rule_r6(p, res):
     r.floor(8, "_apply bodies")
 
 
-RULES = [rule_r1, rule_r2, rule_r3, rule_r4, rule_r5, rule_r6]
+VIEW_METHODS = {"reshape", "ravel", "view", "squeeze", "transpose", "swapaxes", "diagonal"}
+VIEW_FUNCS = {"asarray", "asanyarray", "atleast_2d", "atleast_1d", "ascontiguousarray", "reshape", "ravel", "squeeze", "transpose", "require"}
+
+
+def _may_be_view_of(e, x, d, depth=0):
+    """Does `e` reach the parameter `x` through operations that can all return a view (no copying step on the way)?"""
+    if depth > 8 or e is None:
+        return False
+    if isinstance(e, ast.Name):
+        if e.id == x:
+            return True
+        return any(_may_be_view_of(v, x, d, depth + 1) for k, v, st in d.of(e.id) if k == "assign" and isinstance(v, ast.AST))
+    if isinstance(e, ast.Attribute):
+        return e.attr in ("T", "real") and _may_be_view_of(e.value, x, d, depth + 1)
+    if isinstance(e, ast.Subscript):
+        items = e.slice.elts if isinstance(e.slice, ast.Tuple) else [e.slice]
+        adv = (ast.List, ast.ListComp, ast.Compare, ast.Call, ast.BinOp)
+
+        def advanced(i):
+            if isinstance(i, adv):
+                return True
+            if isinstance(i, ast.Name):  # a local computed in the function: an index array; a parameter / attribute may be a slice
+                ds = [v for k, v, st in d.of(i.id) if k == "assign"]
+                return bool(ds) and all(isinstance(v, adv) for v in ds)
+            return False
+        if any(advanced(i) for i in items):
+            return False  # provably advanced indexing: a copy
+        return _may_be_view_of(e.value, x, d, depth + 1)
+    if isinstance(e, ast.Call):
+        dn = dotted(e.func) or ""
+        if dn.startswith(("np.", "numpy.")):
+            return dn.split(".")[-1] in VIEW_FUNCS and bool(e.args) and _may_be_view_of(e.args[0], x, d, depth + 1)
+        if isinstance(e.func, ast.Attribute) and e.func.attr in VIEW_METHODS:
+            return _may_be_view_of(e.func.value, x, d, depth + 1)
+        return False
+    if isinstance(e, ast.IfExp):
+        return _may_be_view_of(e.body, x, d, depth + 1) or _may_be_view_of(e.orelse, x, d, depth + 1)
+    return False
+
+
+def rule_r7(p, res):
+    r = res.rule("C09.R7", "the result of _apply is a new array: it never is, or can be a view of, the array it was given")
+    seen = set()
+    for c in transform_classes(p):
+        f = p.lookup(c, "_apply")
+        if f is None or only_raises(f.node) or f in seen:
+            continue
+        seen.add(f)
+        r.instance(f)
+        x = f.params[1]
+        d = Defs(f.node)
+        bad = [rt for rt in returns_of(f.node) if rt.value is not None and _may_be_view_of(rt.value, x, d)]
+        for rt in bad:
+            r.violation(f, rt, "%s returns `%s`, which reaches the input array through view-preserving operations only (basic indexing, reshape, transpose): the result shares "
+                        "memory with the caller's array, so editing either afterwards changes the other and a repeated apply gives a different answer" % (f.short, norm(rt.value)[:60]))
+        if not bad:
+            r.ok({"function": f.short, "result_is_fresh": True})
+    r.floor(8, "_apply bodies")
+
+
+RULES = [rule_r1, rule_r2, rule_r3, rule_r4, rule_r5, rule_r6, rule_r7]
 
 WITNESSES = [
     Witness("C09.W1", "menpo/transform/piecewiseaffine/base.py", "CachedPWA.index_alpha_beta",
@@ -420,4 +531,20 @@ WITNESSES = [
             "~np.logical_or(np.logical_or(alpha < 0, beta < 0), alpha + beta > 1)", rule="C09.R5", construct="containment_from_alpha_beta", note="seeded change R2-C09-B"),
     Witness("C09.T1", "menpo/transform/base/__init__.py", "Transform._apply_batched",
             "n_points = x.shape[0]", "n_points = len(x)", kind="T"),
+]
+
+WITNESSES += [
+    Witness("C09.W11", "menpo/transform/base/__init__.py", "Transform._apply_batched",
+            "outputs = []\n        n_points = x.shape[0]\n        for lo_ind in range(0, n_points, batch_size):\n            hi_ind = lo_ind + batch_size\n            outputs.append(self._apply(x[lo_ind:hi_ind], **kwargs))\n        return np.vstack(outputs)",
+            "outputs = np.empty_like(x)\n        n_points = x.shape[0]\n        for lo_ind in range(0, n_points, batch_size):\n            hi_ind = lo_ind + batch_size\n            outputs[lo_ind:hi_ind] = self._apply(x[lo_ind:hi_ind], **kwargs)\n        return outputs",
+            rule="C09.R4", construct="Transform._apply_batched", note="seeded change R3-C02-A"),
+    Witness("C09.W12", "menpo/transform/piecewiseaffine/base.py", "CachedPWA.index_alpha_beta",
+            "self._iab = PythonPWA.index_alpha_beta(self, points)\n        self._applied_points = points.copy()", "self._applied_points = points.copy()\n        self._iab = PythonPWA.index_alpha_beta(self, points)",
+            rule="C09.R3", construct="CachedPWA.index_alpha_beta", note="seeded change R3-C09-A"),
+    Witness("C09.W13", "menpo/transform/piecewiseaffine/base.py", "AbstractPWA._apply_batched",
+            "exception_thrown = False\n        for lo_ind in range(0, n_points, batch_size):\n            try:", "for lo_ind in range(0, n_points, batch_size):\n            exception_thrown = False\n            try:",
+            rule="C09.R4", construct="AbstractPWA._apply_batched", note="seeded change R3-C09-C"),
+    Witness("C09.W14", "menpo/transform/__init__.py", "WithDims._apply", "x[:, self.dims].reshape([x.shape[0], -1]).copy()", "x[:, self.dims].reshape([x.shape[0], -1])",
+            rule="C09.R7", construct="WithDims._apply", note="seeded changes R3-C02-C / R3-C09-B"),
+    Witness("C09.T2", "menpo/transform/__init__.py", "WithDims._apply", "x[:, self.dims].reshape([x.shape[0], -1]).copy()", "np.array(x[:, self.dims].reshape([x.shape[0], -1]))", kind="T"),
 ]
